@@ -173,6 +173,12 @@ class QueryJudge:
                     if reproduced and not mentions_flatten(case) and self.known('C05-F1'):
                         self.attributed.add((case['id'], cfg_name))
                         continue
+                if cfg_name.startswith('on') and off_name in res['impl'] and f6_scope(case) and \
+                        all(canon(o[1], case, self.ordered) == want for o in res['impl'][off_name]['outs']
+                            if o[0] == 'rows') and self.known('C05-F6'):
+                    # known finding C05-F6 (wrong with the cache on, right with it off, inside the scope below)
+                    self.attributed.add((case['id'], cfg_name))
+                    continue
                 if cfg_name.startswith('on') and off_name in res['impl'] and mentions_flatten(case) and \
                         all(canon(o[1], case, self.ordered) == want for o in res['impl'][off_name]['outs']
                             if o[0] == 'rows') and \
@@ -216,6 +222,53 @@ def literal_in_a_right_operand(case):
     if len(conds) > 1 and any(has_lit(y) for y in conds[1:]):
         return True
     return any(walk(c) for c in conds)
+
+
+def f6_scope(case):
+    """Scope of known finding C05-F6: a conjunction (and_, or the conditions passed separately to entity()/set_of()) has
+    an operand R that contains a disjunction and mentions a NON-SELECTED variable v, and an earlier operand L that contains
+    a disjunction one side of which mentions v while the other does not (some outputs of L leave v unbound, others bind
+    it): R is first evaluated with v unbound - its duplicate suppression drops outputs from what its parent caches while
+    the coverage check of the empty binding latches "everything seen" - and is later asked with v bound."""
+    case = case.get('explicit', case)
+    sel = set()
+    for t in case['sel']:
+        sel |= surface.term_vars(t)
+
+    def has_or(c):
+        return c[0] == 'or' or (c[0] in ('and', 'not', 'sub') and any(has_or(y) for y in (c[2:] if c[0] == 'sub' else c[1:])))
+
+    def split_or(c, v):
+        if c[0] == 'or':
+            sides = [v in cond_vars(y) for y in c[1:]]
+            if any(sides) and not all(sides):
+                return True
+        if c[0] in ('and', 'or', 'not'):
+            return any(split_or(y, v) for y in c[1:])
+        if c[0] == 'sub':
+            return any(split_or(y, v) for y in c[2:])
+        return False
+
+    def chain_ok(ops):
+        for j in range(1, len(ops)):
+            R = ops[j]
+            if not has_or(R):
+                continue
+            for v in cond_vars(R) - sel:
+                if any(split_or(ops[i], v) for i in range(j)):
+                    return True
+        return False
+
+    def walk(c):
+        if c[0] == 'and' and chain_ok(list(c[1:])):
+            return True
+        if c[0] in ('and', 'or', 'not'):
+            return any(walk(y) for y in c[1:])
+        if c[0] == 'sub':
+            return chain_ok(list(c[2:])) or any(walk(y) for y in c[2:])
+        return False
+    conds = list(case.get('cond') or [])
+    return chain_ok(conds) or any(walk(c) for c in conds)
 
 
 def mentions_flatten(case):
